@@ -39,15 +39,20 @@ SDPowerSet::Iterator::Iterator(const SDPowerSet& boolean, const bool isCompleted
   : boolean{ &boolean }, isCompleted{ isCompleted } {}
 
 SDPowerSet::Iterator::reference SDPowerSet::Iterator::operator*() const {
-  if (boolean->IsCached(counter)) {
-    return boolean->GetCache(counter);
-  } else {
-    auto newData = Factory::EmptySet();
-    for (const auto& iter : itemIterators) {
-      newData.ModifyB().AddElement(*iter);
+  // Note: cache is shared between iterators and can be reset by any of them,
+  // so returned reference should point to the data owned by this iterator
+  if (!current.has_value()) {
+    if (boolean->IsCached(counter)) {
+      current = boolean->GetCache(counter);
+    } else {
+      auto newData = Factory::EmptySet();
+      for (const auto& iter : itemIterators) {
+        newData.ModifyB().AddElement(*iter);
+      }
+      current = boolean->SaveCache(counter, newData);
     }
-    return boolean->SaveCache(counter, newData);
   }
+  return current.value();
 }
 
 bool SDPowerSet::Iterator::operator==(const Iterator& rhs) const noexcept {
@@ -59,6 +64,7 @@ bool SDPowerSet::Iterator::operator==(const Iterator& rhs) const noexcept {
 }
 
 SDPowerSet::Iterator& SDPowerSet::Iterator::operator++() {
+  current.reset();
   if (!isCompleted) {
     if (Increment()) {
       ++counter;
@@ -156,16 +162,21 @@ SDDecartian::Iterator::Iterator(const SDDecartian& base, const bool completed)
 }
 
 SDDecartian::Iterator::reference SDDecartian::Iterator::operator*() const {
-  if (decartian->IsCached(counter)) {
-    return decartian->GetCache(counter);
-  } else {
-    std::vector<StructuredData> components{};
-    components.reserve(size(componentIters));
-    for (const auto& compIter : componentIters) {
-      components.emplace_back(*compIter);
+  // Note: cache is shared between iterators and can be reset by any of them,
+  // so returned reference should point to the data owned by this iterator
+  if (!current.has_value()) {
+    if (decartian->IsCached(counter)) {
+      current = decartian->GetCache(counter);
+    } else {
+      std::vector<StructuredData> components{};
+      components.reserve(size(componentIters));
+      for (const auto& compIter : componentIters) {
+        components.emplace_back(*compIter);
+      }
+      current = decartian->SaveCache(counter, Factory::Tuple(components));
     }
-    return decartian->SaveCache(counter, Factory::Tuple(components));
   }
+  return current.value();
 }
 
 bool SDDecartian::Iterator::operator==(const Iterator& rhs) const noexcept {
@@ -177,6 +188,7 @@ bool SDDecartian::Iterator::operator==(const Iterator& rhs) const noexcept {
 }
 
 SDDecartian::Iterator& SDDecartian::Iterator::operator++() {
+  current.reset();
   if (!isCompleted) {
     auto index = size(componentIters) - 1;
     for (auto iter = componentIters.rbegin(); iter != componentIters.rend(); ++iter, --index) {
